@@ -21,7 +21,10 @@ RULE = ("driver (a): case = history of 2-4 transactions over 5 private addresses
         "(SSTORE/SLOAD, LOG1, CALL/CALLCODE/DELEGATECALL/STATICCALL to contracts, EOAs and empty addresses with and without value "
         "and gas limits, CREATE/CREATE2 with succeeding or reverting init code, SELFDESTRUCT, REVERT, INVALID, RETURN), a call or "
         "creation message with random gas limit, value, access list, run through Keeper.ApplyEvmMsg and geth core.ApplyMessage; "
-        "non-trivial = executed and contains a nested call/create plus a state change or abort.  driver (c): case = HISTORY of 3-6 signed "
+        "non-trivial = executed and contains a nested call/create plus a state change or abort, or reaches a standard precompile; bodies (also of "
+        "driver (c)) contain `pre` statements = CALL of a standard precompile 0x01..0x09 with valid / boundary / malformed inputs (MODEXP with 10 "
+        "operand-length shapes x 3 exponent heads), outputs optionally returned, and 1/7 of the messages go straight to a precompile address; the "
+        "go-ethereum side uses its OWN precompile set for the chain rules (upstream London).  driver (c): case = HISTORY of 3-6 signed "
         "MsgEthereumTx (2 senders with real keys, one of them poor; up to 3 generated contracts; calls, creations, plain transfers, access "
         "lists, calldata) delivered like baseapp.runTx: each message on its own ctx.CacheContext() branch through the real EVM ante chain and "
         "Keeper.EthereumTx, written back only on success, NOTHING reset between messages (the process-wide per-tx StateDB pointer is left to "
@@ -177,9 +180,12 @@ def to_coq_case(rec):
         return _msgs_case(rec)
     if _is_prog(rec):
         ob = rec["obs"]
-        return "(mk_prog %s %s %s %s %s)%%Z" % (_z(ob["quot"]), _z(ob["refund"]),
-                                               ("(%d)" % ob["used_pre"]) if ob["used_pre"] < 0 else _z(ob["used_pre"]),
-                                               _pobs(ob["nib"]), _pobs(ob["geth"]))
+        head = "%s %s %s %s %s" % (_z(ob["quot"]), _z(ob["refund"]),
+                                   ("(%d)" % ob["used_pre"]) if ob["used_pre"] < 0 else _z(ob["used_pre"]),
+                                   _pobs(ob["nib"]), _pobs(ob["geth"]))
+        if ob.get("modexp"):
+            return "(mk_prog_modexp %s %s)%%Z" % (head, " ".join(_z(x) for x in ob["modexp"]))
+        return "(mk_prog %s)%%Z" % head
     txs = "[" + "; ".join("[" + "; ".join(_op(o) for o in tx) + "]" for tx in rec["input"]) + "]"
     return "(mk_case [0;1;2;3;4] [0;1;2;3] %s %s %s)%%Z" % (txs, _obs(rec["obs"]["nib"]), _obs(rec["obs"]["geth"]))
 
@@ -224,6 +230,8 @@ def nontrivial(rec):
         ks = _prog_kinds(rec)
         ob = rec["obs"]["nib"]
         # executed, and has a nested call/create together with a state change or an abort
+        if (not ob["rejected"]) and ("pre" in ks or rec["input"].get("pre")):
+            return True  # reaches a standard precompile
         return (not ob["rejected"]) and bool(ks & {"call", "dcall", "scall", "ccall", "create", "create2"}) and \
             bool(ks & {"sstore", "selfdestruct", "revert", "invalid", "log"})
     rv = _reverts(rec)
@@ -258,6 +266,9 @@ def classify(rec):
               "prog-to:%s" % ("create" if rec["input"]["to"] < 0 else "call"),
               "prog-refund:%s" % ("0" if ob["refund"] == 0 else ("capped" if ob["used_pre"] >= 0 and ob["refund"] > ob["used_pre"] // 5 else "full"))]
         ks += ["stmt:" + k for k in sorted(_prog_kinds(rec))]
+        ks += ["precompile:0x%02x" % ((st.get("a", 1) - 1) % 9 + 1) for b in rec["input"]["bodies"] for st in b if st["k"] == "pre"]
+        if rec["input"].get("pre"):
+            ks.append("top-level-precompile:0x%02x" % ((rec["input"]["pre"][0] - 1) % 9 + 1))
         return ks
     ks = ["driver:seq", "txs=%d" % len(rec["input"]), "stream:" + rec.get("stream", "?")]
     depth_max = 0
@@ -449,7 +460,10 @@ MANIFEST = {
                  "TxData.Cost() the ante chain admits a message exactly when go-ethereum's preCheck+buyGas does (fee cap >= base fee); "
                  "C03_msgs_effective_cost_admission_refuted (balance checked against the effective cost) and C03_admission_below_base_fee_refuted "
                  "(price below the base fee is admitted: finding on the pinned tree); what CheckSenderBalance compares with is re-extracted "
-                 "(C03_facts_sender_balance_check). Whether "
+                 "(C03_facts_sender_balance_check). STANDARD PRECOMPILES (Precompiles.v): price tables per upstream fork table; "
+                 "C03_std_precompiles_istanbul_berlin_differ_only_in_modexp, C03_modexp_london_price (EIP-2565), C03_istanbul_precompile_table_refuted; "
+                 "which table InitPrecompiles copies is re-extracted (C03_facts_std_precompiles_london) and the MODEXP price of messages sent straight "
+                 "to 0x05 is compared with the model. Whether "
                  "EthereumTx defers the clear before any return following the acquisition is re-extracted from the source on every run "
                  "(C03_facts_ethereumtx_clears_statedb, C03_messages_hold_for_current_tree). Driver (c) runs generated message histories "
                  "through the real ante chain + Keeper.EthereumTx vs geth core.ApplyMessage, compared after every message (checker Pmsgs_b, "
